@@ -54,6 +54,16 @@ func newTwin(name, mode string, bases []string) *twin {
 	case "none-explicit":
 		opts = append(opts, gofakes3.WithHostBucket(false), gofakes3.WithHostBucketBase())
 		mode = "none"
+	case "bases-replaced":
+		// an option given twice: the later list replaces the earlier one (a default list that a caller overrides)
+		opts = append(opts, gofakes3.WithHostBucketBase("old.example", "example.com"), gofakes3.WithHostBucketBase(bases...))
+		mode = "bases"
+	case "bases-switched-off":
+		opts = append(opts, gofakes3.WithHostBucketBase(bases...), gofakes3.WithHostBucketBase())
+		mode = "none"
+	case "bases-switched-off-host":
+		opts = append(opts, gofakes3.WithHostBucketBase(bases...), gofakes3.WithHostBucketBase(), gofakes3.WithHostBucket(true))
+		mode = "host"
 	}
 	return &twin{name: name, mode: mode, bases: bases, rec: rec, h: newServer(be, opts...)}
 }
@@ -133,6 +143,10 @@ func runC16(tier string, seed uint64) {
 		newTwin("opts-off-first", "bases-hostbucket-off-first", bases[:1]),
 		newTwin("opts-off-last", "bases-hostbucket-off-last", bases[:1]),
 		newTwin("opts-none-explicit", "none-explicit", nil),
+		newTwin("opts-base-replaced", "bases-replaced", bases[:1]),
+		newTwin("opts-base-replaced-old-host", "bases-replaced", bases[:1]),
+		newTwin("opts-base-switched-off", "bases-switched-off", bases[:1]),
+		newTwin("opts-base-switched-off-host", "bases-switched-off-host", bases[:1]),
 		newTwin("path-extra-leading-slash", "none", nil),
 		newTwin("path-trailing-slash", "none", nil),
 	}
@@ -240,7 +254,13 @@ func runC16(tier string, seed uint64) {
 				host = "x." + l.bucket + ".s3.example.com"
 			case "both-fallback-unrelated":
 				host = l.bucket + ".elsewhere.org"
-			case "base1", "base2", "base-nested-short-first", "base-nested-long-first", "both-base1", "opts-both-reversed", "opts-off-first", "opts-off-last":
+			case "opts-base-replaced-old-host":
+				host = l.bucket + ".old.example" // no longer a base: path-style
+			case "opts-base-switched-off":
+				host = l.bucket + ".s3.example.com" // no base is left: path-style
+			case "opts-base-switched-off-host":
+				host, path = l.bucket+".elsewhere.org", l.hostStyle()
+			case "base1", "base2", "base-nested-short-first", "base-nested-long-first", "both-base1", "opts-both-reversed", "opts-off-first", "opts-off-last", "opts-base-replaced":
 				host, path = l.bucket+".s3.example.com", l.hostStyle()
 			case "base2-second":
 				host, path = l.bucket+".other.test:9000", l.hostStyle()
